@@ -147,7 +147,7 @@ def check(case, stats: Stats):
             r = cli.run(['up', '--format', 'summary', bd.config], cwd=bd.root)
             for i in broken:
                 nm = i['src']['name']
-                if not any(nm in line and ('not found' in line.lower() or 'error' in line.lower()) for line in (r.out + r.err).splitlines()):
+                if not any(nm in line and any(w in line.lower() for w in ('not found', 'error', 'missing', 'cannot', 'could not', 'unreadable', 'failed', 'skipp', 'unable')) for line in (r.out + r.err).splitlines()):
                     raise Violation(f'source {nm!r} ({i["state"]}) is not reported by `tally up`:\n{(r.out + r.err)[:1200]}', case, 'source-not-reported')
             classes.add('source_missing_or_unreadable')
             if any(i['state'] == 'late_garbage' for i in broken):
